@@ -1,4 +1,4 @@
-//@unit props=C09,C01
+//@unit props=C09,C01,C07
 // Unit known_word — src/vm/value/known.rs: every KnownWord operation against the EVM's
 // mathematical definition of the instruction (C09, C07 word semantics), conversions without
 // truncation where the property needs it (C06), and panic-freedom of all of them (C01).
